@@ -65,6 +65,7 @@ func main() {
 		{"Consts.v", genConsts},
 		{"PgTie.v", genPgTie},
 		{"AdminProxy.v", genAdminProxy},
+		{"PushShape.v", genPushShape},
 	}
 	failed := false
 	for _, g := range gens {
